@@ -20,6 +20,7 @@ from vf.common import Violation
 from vf.world import World
 
 IDX = st.integers(0, 31)
+VT = st.sampled_from([None, None, None, None, "i64", "u64", "u32", "i32", "u16", "u8"])
 SK = st.integers(0, 7)
 
 
@@ -102,7 +103,8 @@ class HistoryMachine(RuleBasedStateMachine):
     @rule(i=SK, ki=IDX, data=st.data())
     def add(self, i, ki, data):
         v = data.draw(self.VALUES, label="v")
-        self.do({"op": "add", "i": i % self.N, "k": self.key(ki), "v": v, **self._draws(data)})
+        vt = data.draw(VT, label="vt")
+        self.do({"op": "add", "i": i % self.N, "k": self.key(ki), "v": v, **({"vt": vt} if vt else {}), **self._draws(data)})
 
     @rule(i=SK, kis=st.lists(IDX, min_size=0, max_size=6), data=st.data())
     def update_list(self, i, kis, data):
@@ -118,7 +120,8 @@ class HistoryMachine(RuleBasedStateMachine):
     @rule(i=SK, kis=st.lists(IDX, min_size=0, max_size=5), data=st.data())
     def update_dict(self, i, kis, data):
         items = [[self.key(k), data.draw(self.VALUES, label="v")] for k in kis]
-        self.do({"op": "update_dict", "i": i % self.N, "items": items, **self._draws(data)})
+        vt = data.draw(VT, label="vt")
+        self.do({"op": "update_dict", "i": i % self.N, "items": items, **({"vt": vt} if vt else {}), **self._draws(data)})
 
     @precondition(lambda self: self.NGRAM)
     @rule(i=SK, ki=IDX, n=st.integers(1, 9), data=st.data())
